@@ -248,6 +248,12 @@ func (f *fakeStream) build(op string) (*pb.SessionRequest, string) {
 				d.Key.ParentKeyMeta.KeyId = "_IK_garbage"
 			case "pcreated":
 				d.Key.ParentKeyMeta.Created -= 86400 * 365
+			case "nopmeta": // key sub-message present, parent_key_meta absent
+				d.Key.ParentKeyMeta = nil
+			case "emptykey": // key sub-message present but empty
+				d.Key = &pb.EnvelopeKeyRecord{}
+			case "nokey": // data only
+				d.Key = nil
 			default:
 				return bad("corrupt-field")
 			}
@@ -401,7 +407,7 @@ func setup() {
 
 // the 8-letter alphabet of C19; "genuine" = the stream's latest own record, else the setup record of A
 var alphabet = []string{"gs A", "gs empty", "enc", "dec genuine", "dec foreign", "dec corrupt", "dec empty", "empty"}
-var corruptFields = []string{"data", "key", "keyid", "pcreated"}
+var corruptFields = []string{"data", "key", "keyid", "pcreated", "nopmeta", "emptykey", "nokey"}
 
 func resolveExh(letters []int) func(i int, own []string) string {
 	return func(i int, own []string) string {
@@ -417,9 +423,9 @@ func resolveExh(letters []int) func(i int, own []string) string {
 			return "dec foreign#1." + strconv.Itoa(i%2)
 		case "dec corrupt":
 			if len(own) > 0 {
-				return "dec corrupt#" + own[len(own)-1] + ":" + corruptFields[i%4]
+				return "dec corrupt#" + own[len(own)-1] + ":" + corruptFields[i%len(corruptFields)]
 			}
-			return "dec corrupt#0." + strconv.Itoa(i%3) + ":" + corruptFields[(i+len(letters))%4]
+			return "dec corrupt#0." + strconv.Itoa(i%3) + ":" + corruptFields[(i+len(letters))%len(corruptFields)]
 		}
 		return alphabet[letters[i]]
 	}
@@ -504,7 +510,7 @@ func randomGroups(rng *prng.R, groups, perGroup, maxLen int) {
 					case 4:
 						return "dec foreign#" + others[d%len(others)]
 					case 5:
-						return "dec corrupt#" + genuine() + ":" + corruptFields[(d/1024)%4]
+						return "dec corrupt#" + genuine() + ":" + corruptFields[(d/1024)%len(corruptFields)]
 					case 6:
 						return "dec empty"
 					case 7:
